@@ -8,9 +8,8 @@ Modelled as the code is, quirks included:
 * Write Data / Check Data: the parameter byte is `(ops & 3) << 3 | (width & 7)`; `parse` keeps only those five bits and
   refuses a width outside {1, 2, 4}; Write Data constructs the object (width test) BEFORE it reads the pairs, Check Data
   reads address / mask / count first.
-* Check Data: the header length counts the poll count only when it is truthy (`4 if count else 0`), `export` writes it
-  whenever it is not `None`: `count = 0` is exported as 16 bytes under a header that says 12 (`DCmd.size` = 12,
-  `DCmd.encode` 16 bytes) — outside `DCmd.WF`; see `checkData_zero_count_breaks` in `Proofs/HabDcd.lean`.
+* Check Data: the header length counts the poll count whenever it is exported (`4 if count is not None else 0`, fixed by
+  8656d83; before, `count = 0` was exported as 16 bytes under a header that said 12 (`DCmd.encode` 16 bytes)); see `checkData_zero_count_roundtrip` in `Proofs/HabDcd.lean`.
 * Initialize: the object is the one built with `append` (header length maintained); `append` refuses 0xFFFFFFFF
   (`value >= 0xFFFFFFFF`), so does `parse`; the loop of `parse` tests `index >= len(data)` before reading a word.
   (`CmdInitialize(engine, data)` with a non-empty list leaves the header length at 4 — not represented.)
@@ -60,9 +59,9 @@ def encWords : List Nat → Bytes
   | [] => []
   | v :: r => be32 v ++ encWords r
 
-/-- truthiness of the poll count in `4 if count else 0` -/
+/-- `4 if count is not None else 0` (8656d83; was `4 if count else 0`) -/
 def countLen : Option Nat → Nat
-  | some c => if c = 0 then 0 else 4
+  | some _ => 4
   | none => 0
 
 /-- `CmdBase.size` = the header length the object maintains -/
@@ -152,12 +151,12 @@ def DCmd.tag : DCmd → Nat
 def DCmd.inDcd (c : DCmd) : Bool := decide (c.tag ∈ Spec.dcdCommands)
 
 /-- field ranges: what the struct formats hold and what the constructors / `append` accept, and the header length
-    stays a 16-bit value.  `count = some 0` is excluded (see the file comment) -/
+    stays a 16-bit value.  `count = some 0` is included since 8656d83 -/
 def DCmd.WF : DCmd → Prop
   | .writeData w o data =>
     w ∈ Spec.widths ∧ o < 4 ∧ 4 + 8 * data.length < 65536 ∧ ∀ p ∈ data, p.1 < 2 ^ 32 ∧ p.2 < 2 ^ 32
   | .checkData w o a m count =>
-    w ∈ Spec.widths ∧ o < 4 ∧ a < 2 ^ 32 ∧ m < 2 ^ 32 ∧ ∀ c, count = some c → 0 < c ∧ c < 2 ^ 32
+    w ∈ Spec.widths ∧ o < 4 ∧ a < 2 ^ 32 ∧ m < 2 ^ 32 ∧ ∀ c, count = some c → c < 2 ^ 32
   | .init e data => e ∈ Spec.engineTags ∧ 4 + 4 * data.length < 65536 ∧ ∀ v ∈ data, v < Spec.initLimit
   | .other c => c.WF ∧ c.size < 65536
 
